@@ -59,11 +59,15 @@ MapVals(u_) == {<<>>}
            \cup {<<Entry(k, v)>> : k \in TokStr(1), v \in TokStr(1)}
            \cup {<<Entry(<<kk[1]>>, v1), Entry(<<kk[2]>>, v2)>> : kk \in {q \in MapCls \X MapCls : q[1] # q[2]},
                                                             v1 \in {<<>>} \cup {<<c>> : c \in MapCls}, v2 \in {<<>>, <<"al">>, <<"amp">>}}
+\* a map that hands its entries to the serializer in insertion order (not in key order): also the empty key in second place
+OMapVals(u_) == MapVals(0)
+           \cup UNION {{<<Entry(k1, v1), Entry(k2, v2)>> : k2 \in {<<>>, <<"al">>} \ {k1}, v1 \in {<<>>, <<"al">>}, v2 \in {<<>>, <<"amp">>}} : k1 \in {<<>>, <<"al">>, <<"eq">>}}
 RtTypeVals(ty) == CASE ty = "Ints" -> IntsVals(0)
                     [] ty = "Map" -> MapVals(0)
+                    [] ty = "OMap" -> OMapVals(0)
                     [] ty = "Str1" -> RtProd(Catalogue[ty], 1, RtLen)
                     [] OTHER -> RtProd(Catalogue[ty], 1, RtLen2)
-RtTypes == {"Ints", "Floats", "Scal", "Str1", "Str2", "Ch", "Opt", "OptEnd", "En", "Nt", "SeqS", "SeqN", "Seq2", "TupSeq", "Map"}
+RtTypes == {"Ints", "Floats", "Scal", "Str1", "Str2", "Ch", "Opt", "OptEnd", "En", "Nt", "SeqS", "SeqN", "Seq2", "TupSeq", "Map", "OMap"}
 
 \* ------------------------------------------------------------------ decode
 WTok(ctx) == {[c |-> c, e |-> e, s |-> ""] : c \in Classes, e \in {"U", "L"}}
